@@ -781,17 +781,29 @@ def proj_ret(name, v):
 YPOOL = ['y', 'Z', u'\xe9', '#', '~', u'\xff']          # encodable in latin-1; never ' ', 'x', '+', '-', '|', newline
 
 
-def run_screen_script(R, C, enc, script):
-    """script: [('op', action, args, ch|None) | ('acc', name, args)] with concrete characters -> trace events"""
+def run_screen_script(R, C, enc, script, errors='replace'):
+    """script: [('op', action, args, ch|None[, rej]) | ('acc', name, args)] with concrete characters -> trace events.
+    rej ('bytes' / 'decode'): the argument is one this screen rejects; the exception is recorded and the script goes on"""
     with warnings.catch_warnings():
         warnings.simplefilter('ignore')
-        o = SCR.screen(R, C, encoding=enc)
+        o = SCR.screen(R, C, encoding=enc, encoding_errors=errors)
     rec = Recorder(o, R, C, False)
     ev = []
     for step in script:
         exc = None
+        if step[0] == 'op' and len(step) > 4 and step[4]:
+            _, action, args, ch, rej = step
+            m = METHOD[action]
+            try:
+                getattr(o, m)(*(list(args) + [arg_unjson(ch)]))
+            except Exception as e:
+                exc = e
+            ev.append({'k': 'op', 'm': m, 'op': action, 'a': list(args), 'ch': '', 'rej': rej, 'obs': rec.obs(exc)})
+            if exc is not None and type(exc).__name__ == REJ_EXC[rej]:
+                continue                      # rejected as expected: the script goes on, on the unchanged screen
+            break                             # taken after all / another exception: TLC decides, nothing to add
         if step[0] == 'op':
-            _, action, args, ch = step
+            _, action, args, ch = step[:4]
             m = METHOD[action]
             a = list(args) + ([arg_unjson(ch)] if ch is not None else [])
             try:
@@ -822,7 +834,27 @@ def run_screen_script(R, C, enc, script):
     return ev
 
 
-def random_screen_script(rng, R, C, enc, nops):
+REJ_BYTES = {None: [b'x', b' ', b'\xe9', b'\xff', b'ab'], 'ascii': [b'\xc9', b'\xff', b'\x80'],
+             'utf-8': [b'\xff', b'\xe2\x28', b'\xc0\xaf', b'\x80']}
+
+
+def rejected_steps(rng, R, C, enc, coord):
+    """one rejected character operation followed by reads through every accessor"""
+    a = rng.choice(sorted(CHAR_OPS))
+    args = {'PutAbs': 2, 'InsertAbs': 2, 'FillRegion': 4}.get(a, 0)
+    args = [coord(R) if i % 2 == 0 else coord(C) for i in range(args)]
+    steps = [('op', a, args, arg_json(rng.choice(REJ_BYTES[enc])), 'bytes' if enc is None else 'decode')]
+    big = R * C > 500
+    accs = [('acc', 'get', []), ('acc', 'get_abs', [coord(R), coord(C)]),
+            ('acc', 'get_region', [coord(R), coord(C), coord(R), coord(C)] if big else [1, 1, R, C]),
+            ('acc', 'dump', []), ('acc', 'str', []), ('acc', 'pretty', [])]
+    if big:                                # whole-screen reads of 24x80 are costly for TLC: one of the three
+        accs = accs[:3] + [rng.choice(accs[3:])]
+    return steps + accs
+
+
+def random_screen_script(rng, R, C, enc, nops, errors='replace'):
+    rejecting = enc is None or (errors == 'strict' and enc in REJ_BYTES)
     def coord(n):
         return rng.choice([rng.randint(1, n), rng.randint(1, n), 0, 1, n, n + 1, -1, n + 3, rng.randint(-5, n + 5), 10 ** 5, -10 ** 5])
 
@@ -844,6 +876,9 @@ def random_screen_script(rng, R, C, enc, nops):
             script.append(('op', 'FillRegion', [coord(R), coord(C), coord(R), coord(C)], char()))
     for _ in range(nops):
         x = rng.random()
+        if rejecting and rng.random() < 0.08:
+            script += rejected_steps(rng, R, C, enc, coord)
+            continue
         if x < 0.18:
             name = rng.choice(['get', 'get_abs', 'get_region', 'dump', 'str', 'pretty'])
             args = {'get_abs': lambda: [coord(R), coord(C)], 'get_region': lambda: [coord(R), coord(C), coord(R), coord(C)]}.get(
@@ -1102,6 +1137,10 @@ def graph_coverage(g, pid):
 # ---------------------------------------------------------------------------------------------
 # C19
 # ---------------------------------------------------------------------------------------------
+# (encoding, encoding_errors) of the random operation sequences; the screens with encoding=None and the strict ones also
+# get rejected operations (rejected_steps)
+SCREEN_MODES = [(None, 'replace'), ('latin-1', 'replace'), ('latin-1', 'replace'), ('utf-8', 'replace'), ('cp437', 'replace'),
+                ('ascii', 'strict'), ('utf-8', 'strict'), (None, 'strict')]
 SIZES_RANDOM = [(24, 80), (1, 1), (1, 7), (5, 1), (3, 5), (7, 3), (4, 5), (10, 10), (2, 2)]
 
 
@@ -1115,10 +1154,10 @@ def screen_traces(ctx, quick):
         lst = []
         for k in range(n):
             rng = random.Random(ctx.seed * 7919 + si * 100003 + k)
-            enc = rng.choice([None, 'latin-1', 'latin-1', 'utf-8', 'cp437'])
-            script = random_screen_script(rng, R, C, enc, nops)
-            ev = run_screen_script(R, C, enc, script)
-            lst.append({'id': tid, 'ev': ev, 'meta': {'kind': 'screen-trace', 'rows': R, 'cols': C, 'enc': enc,
+            enc, errors = rng.choice(SCREEN_MODES)
+            script = random_screen_script(rng, R, C, enc, nops, errors)
+            ev = run_screen_script(R, C, enc, script, errors)
+            lst.append({'id': tid, 'ev': ev, 'meta': {'kind': 'screen-trace', 'rows': R, 'cols': C, 'enc': enc, 'errors': errors,
                                                       'script': [list(s) for s in script]}})
             tid += 1
         out[(R, C)] = lst
@@ -1191,6 +1230,18 @@ def run_c19(ctx):
     for a in SCREEN_ACTIONS:
         if seen_actions[a] == 0:
             raise tlc.TLCError('no transition of action %s in the dumped graphs' % a)
+    # rejected spellings: every character operation was refused for both reasons and the state compared with the pre-state
+    rej_tr = {k[9:]: v for k, v in total.count.items() if k.startswith('rejected:')}
+    if not total.nfail:
+        for a in sorted(CHAR_OPS):
+            for kind in ('bytes', 'decode'):
+                if rej_tr.get('%s:%s' % (METHOD[a], kind), 0) == 0:
+                    raise tlc.TLCError('no rejected (%s) spelling of %s was exercised on the dumped graphs' % (kind, METHOD[a]))
+    ctx.note('rejected operations on the graphs: %d character-operation transitions repeated with an argument the screen refuses '
+             '(bytes on encoding=None -> TypeError, undecodable bytes under strict -> UnicodeDecodeError; %s), state compared with '
+             'the pre-state%s' % (total.count['rejected'], ', '.join('%s x%d' % kv for kv in sorted(rej_tr.items())),
+                                  '; %d not refused by the codec (nothing to compare)' % total.count['not_rejected']
+                                  if total.count['not_rejected'] else ''))
     # binding self-test 1: a transition whose expected post-state was corrupted must be noticed
     g, R, C, table = last
     if R * C == 1:
@@ -1232,6 +1283,27 @@ def run_c19(ctx):
     ctx.note('%d random operation sequences (%d events) on %s executed in %.0fs and validated by TLC in %.0fs: %s' % (
         tstats['traces'], tstats['events'], ', '.join('%dx%d' % s for s in corpus), gen_s, time.time() - t0,
         ', '.join('%s x%d' % kv for kv in sorted(tstats['verdicts'].items()))))
+    rej_ev = Counter()
+    reads_after = 0
+    for traces in corpus.values():
+        for t in traces:
+            for i, e in enumerate(t['ev']):
+                if e.get('rej') and e['obs']['raised'] == REJ_EXC[e['rej']]:
+                    rej_ev['%s:%s' % (e['m'], e['rej'])] += 1
+                    j = i + 1
+                    while j < len(t['ev']) and t['ev'][j]['k'] == 'acc':
+                        reads_after += 1
+                        j += 1
+    if not tstats.get('fails'):
+        for a in sorted(CHAR_OPS):
+            for kind in ('bytes', 'decode'):
+                if rej_ev['%s:%s' % (METHOD[a], kind)] == 0:
+                    raise tlc.TLCError('no rejected (%s) %s in the random operation sequences' % (kind, METHOD[a]))
+    ctx.note('rejected operations in those sequences: %d operations refused by the screen (%s), each followed by reads through the '
+             'accessors (%d reads): TLC requires grid, cursor, saved cursor and region unchanged and the reads to describe that grid' % (
+                 sum(rej_ev.values()), ', '.join('%s x%d' % kv for kv in sorted(rej_ev.items())), reads_after))
+    st3 = rejected_self_test(ctx)
+    ctx.note('binding self-test (rejected operation): ' + ', '.join('%s -> %s' % kv for kv in sorted(st3.items())))
     # binding self-test 2: a corrupted observation in a recorded trace must be rejected
     st2 = trace_self_test(ctx, 'C19')
     ctx.note('binding self-test (trace): ' + ', '.join('%s -> %s' % kv for kv in sorted(st2.items())))
@@ -1252,7 +1324,9 @@ def run_c19(ctx):
                 'graphs, per python spelling of the action (explicit / default arguments), on a real screen object built in '
                 'the pre-state; plus every accessor with every argument tuple in every state of the graphs against the table '
                 'TLC evaluated; non-trivial = the test passed and the state changed (or the accessor returned the expected '
-                'value); plus seeded random sequences validated by TLC (ScreenAnsiTrace)',
+                'value); plus every character-operation transition repeated with an argument the screen rejects (state must '
+                'equal the pre-state); plus seeded random sequences, with rejected operations followed by reads through every '
+                'accessor, validated by TLC (ScreenAnsiTrace)',
         'exhaustive': True,
         'graphs': gstats,
         'model': {'module': 'MCScreen', 'runs': [{'cfg': r['cmd'].split('-config ')[1].split()[0], 'distinct': r['distinct'],
@@ -1260,14 +1334,52 @@ def run_c19(ctx):
                   'action_coverage': {k: v[1] for k, v in cov['coverage'].items()}},
         'trace_validation': {'module': 'ScreenAnsiTrace', 'tlc_states': tstats['tlc_states'], 'cmd': tstats['cmd'],
                              'verdict_counts': dict(tstats['verdicts']), 'self_test': st2},
+        'rejected_operations': {'on_graph_transitions': total.count['rejected'], 'per_method_and_reason': rej_tr,
+                                'not_refused_by_codec': total.count['not_rejected'],
+                                'in_random_sequences': sum(rej_ev.values()), 'in_random_sequences_per_method_and_reason': dict(rej_ev),
+                                'accessor_reads_after_rejection': reads_after, 'self_test': st3,
+                                'screens': ['encoding=None (bytes -> TypeError)', 'ascii / utf-8 / shift_jis / utf-16-le with '
+                                            'encoding_errors=strict (undecodable bytes -> UnicodeDecodeError)'],
+                                'left_out': 'arguments that decode to no character (empty, incomplete multi-byte character): the '
+                                            'unchanged tree shifts the row in insert / insert_abs before raising IndexError'},
         'failing_tests_total': dict(total.nfail), 'known_findings_hit': nknown,
     }, assumptions=[
+        'a character operation whose argument the screen refuses (TypeError on encoding=None, UnicodeDecodeError under strict) '
+        'changes nothing (Screen!RejectedS); arguments that decode to no character at all are outside the checked domain',
         'cell contents are abstracted to {blank, x, other}: the code never branches on a cell value',
         'exhaustive per-transition conformance on the dumped small screens (every reachable state x every action x every '
         'argument in the domain); larger screens are covered by seeded random sequences',
         'character arguments are single characters given as str or as bytes in the object encoding',
     ], wall_s=ctx.wall(), violations=nviol_all)
     return status
+
+
+def rejected_self_test(ctx):
+    """a run with a rejected insert_abs is accepted; the same run with the row shifted by the rejected call, with the cursor
+    moved by it, and with the exception dropped must be rejected with the clause of that field"""
+    import copy
+    R, C = 3, 5
+    script = [('op', 'PutAbs', [2, 1], 'x'), ('op', 'PutAbs', [2, 3], u'\xe9'), ('op', 'CursorHome', [2, 2], None),
+              ('op', 'InsertAbs', [2, 1], arg_json(b'x'), 'bytes'), ('acc', 'dump', []), ('acc', 'get_region', [1, 1, R, C]),
+              ('op', 'Insert', [], 'x'), ('acc', 'str', [])]
+    t = {'id': 'clean', 'ev': run_screen_script(R, C, None, script)}
+    if len(t['ev']) != len(script) or t['ev'][3]['obs']['raised'] != 'TypeError':
+        return {'skipped': 'the real code does not refuse insert_abs(2, 1, b"x") on an encoding=None screen with TypeError'}
+    a = copy.deepcopy(t); a['id'] = 'row-shifted-by-rejected-call'
+    a['ev'][3]['obs']['rows'] = [[2, ['x', 'x', ' ', 'y', ' ']]]
+    b = copy.deepcopy(t); b['id'] = 'cursor-moved-by-rejected-call'
+    b['ev'][3]['obs']['cur'] = [2, 3]
+    c = copy.deepcopy(t); c['id'] = 'bytes-taken-without-exception'
+    c['ev'][3]['obs']['raised'] = ''
+    want = {'clean': 'ok', 'row-shifted-by-rejected-call': 'C19:insert_abs-frame', 'cursor-moved-by-rejected-call': 'C19:insert_abs-cursor',
+            'bytes-taken-without-exception': 'C19:insert_abs-bytes-accepted'}
+    v, _ = validate(ctx, [t, a, b, c], R, C, 'rejtest')
+    res = {k: v[k][0] for k in v}
+    if res.get('clean') != 'ok':
+        return {'skipped': 'the real code fails the fixed run by itself (%s)' % res.get('clean')}
+    if res != want:
+        raise tlc.TLCError('binding self-test (rejected operation): trace verdicts %s, expected %s' % (res, want))
+    return res
 
 
 def trace_self_test(ctx, pid):
@@ -1604,6 +1716,8 @@ def replay(ctx):
     if kind == 'screen-transition':
         screen_transition(Objects(), R, C, st_unjson(c['pre']), c['action'], tuple(c['args']), c['variant'],
                           [st_unjson(e) for e in c['expected']], col)
+    elif kind == 'screen-rejected':
+        screen_rejected(Objects(), R, C, st_unjson(c['pre']), c['action'], tuple(c['args']), c['reject'], col)
     elif kind == 'screen-accessor':
         st = st_unjson(c['state'])
         variant = SVARIANTS[c['variant'] % len(SVARIANTS)]
@@ -1620,7 +1734,7 @@ def replay(ctx):
         chunk_case(R, C, c['syms'], c['enc'], c['form'], units, col, 3, 1, random.Random(0), only_cuts=c['cuts'])
     elif kind in ('screen-trace', 'ansi-trace'):
         if kind == 'screen-trace':
-            ev = run_screen_script(R, C, c['enc'], [tuple(s) for s in c['script']])
+            ev = run_screen_script(R, C, c['enc'], [tuple(s) for s in c['script']], c.get('errors', 'replace'))
         else:
             units = [arg_unjson(u) for u in c['units']]
             ev = run_feed(R, C, c['enc'], [(dd, [c['syms'][k] for k in done]) for dd, done in pieces_of(units, c['cuts'], c['form'])])
